@@ -823,7 +823,7 @@ func (c *converter) addEndLine(line string) {
 }
 
 func (c *converter) mustCurrentForLabel() string {
-	return forLabel(c.forCounter - 1)
+	return c.fors[len(c.fors)-1].label // The innermost open loop (not the last one which has been created).
 }
 
 func (c *converter) mustCurrentForVar() string {
